@@ -48,6 +48,7 @@ var elemTable = map[string]string{
 	"(bytes.Bytes).ParseInt:b.data[0]":                                  "only caller json.(*scanner).setExp passes value.SubLow(expBegin) with expBegin != 0 set at an exponent byte that exists, so the receiver is non-empty (caller-side check: rule C02.elem.callers)",
 	"(bytes.Bytes).ParseInt:b.data[1:]":                                 "dominated by b.data[0] == '-' which already requires len >= 1",
 	"(bytes.Bytes).TrimSquareBrackets:b.data[1:lastCharIndex]":          "dominated by lastCharIndex > 0 with lastCharIndex = len-1 (alias with offset inside a slice bound)",
+	"(*notations/jschema.exampleBuilder).buildObjectKey:quoted[1:len(quoted) - 1]": "quoted is the result of encoding/json.Marshal of a Go string, which always yields a quoted JSON string (len >= 2); the error result is checked just above",
 	"bytes.QuoteChar:s[1:len(s) - 1]":                                   "s is the result of strconv.Quote, which always starts and ends with a quote (len >= 2)",
 	"(*json.Number).trimLeadingZerosInTheIntegerPart:n.nat.FirstByte()": "loop runs intLen = len(nat)-exp times with 0 <= exp <= len(nat) checked just above, and removes one byte per iteration, so nat is non-empty whenever intLen != 0",
 	"(*rules/enum.Enum).handleEndOfComment:e.values[len(e.values) - 1]": "collectLiteral is set only right after handleLiteralEnd appended a value (doCompile), and values never shrink",
